@@ -105,7 +105,8 @@ struct GroupCfg {
     query: u8,           // upgrade request: 0 "?client=7", 1 no query, 2 empty query "?"
     pr: bool,            // adopt: adopt_upgraded_partially_read with the client's first frame handed over as `buffered`
     lim: bool,           // with_limits: 1 MiB inbound frame/message limit (else default limits)
-    small_rt: bool,      // the server runs on a runtime with 4 workers and max_blocking_threads(2)
+    small_rt: bool,      // the server runs on a runtime with 4 workers and max_blocking_threads(1): one parked
+                         // off-reader handler exhausts the blocking pool at the moment the hooks have to run
     frag: usize,         // adopt: capacity of the in-memory stream in bytes (1, 7, 61: every read/write is short and
                          // mostly Pending); 0 = 256 KiB
 }
@@ -1293,7 +1294,14 @@ async fn run_group(cfg: GroupCfg, scens: Vec<Scen>, big_rt: &tokio::runtime::Run
     }
     stop_obs.store(true, Ordering::SeqCst);
     if let Some(o) = observer {
-        let _ = o.join();
+        let t0 = Instant::now();
+        while !o.is_finished() && t0.elapsed() < wd() {
+            tokio::time::sleep(Duration::from_millis(2)).await;
+        }
+        if !o.is_finished() {
+            hang_seen();
+            out.lock().unwrap().count("note.observer-stuck");
+        }
     }
     if obs_bad.load(Ordering::SeqCst) > 0 {
         out.lock().unwrap().oracle_fail("lifecycle.observer.inadmissible", &format!("a concurrent observer saw the registry hold more peers than the {} connections of the group", scens.len()), &[cfg.line()]);
@@ -1529,7 +1537,11 @@ fn plan(rng: &mut Rng, thorough: bool) -> Vec<Plan> {
                     let mut cfg = random_cfg(rng, g, entry, mode, None);
                     // small groups now and then on a runtime whose blocking pool has two threads: a parked handler or two
                     // exhaust it at the moment the hooks have to run
-                    cfg.small_rt = chunk.len() <= 2 && rng.chance(1, 2);
+                    // (only phases that neither hold a worker thread nor need a second blocking thread)
+                    cfg.small_rt = chunk.len() <= 3
+                        && chunk.iter().all(|(p, _)| matches!(p.as_str(), "idle" | "parked" | "parkedfut" | "late"))
+                        && chunk.iter().filter(|(p, _)| p.starts_with("parked")).count() <= 1
+                        && chunk.iter().any(|(p, _)| p.starts_with("parked"));
                     let scens = chunk.iter().enumerate().map(|(i, (p, c))| fill_scen(rng, &cfg, format!("{g}.{i}"), p, c)).collect();
                     plans.push(Plan { cfg, scens });
                 }
@@ -2553,7 +2565,7 @@ fn main() {
         }
     };
     let server_rt = tokio::runtime::Builder::new_multi_thread().worker_threads(48).max_blocking_threads(256).enable_all().thread_name("srv").build().unwrap();
-    let small_rt = tokio::runtime::Builder::new_multi_thread().worker_threads(4).max_blocking_threads(2).enable_all().thread_name("srv-small").build().unwrap();
+    let small_rt = tokio::runtime::Builder::new_multi_thread().worker_threads(4).max_blocking_threads(1).enable_all().thread_name("srv-small").build().unwrap();
     let client_rt = tokio::runtime::Builder::new_multi_thread().worker_threads(4).enable_all().thread_name("cli").build().unwrap();
     let settle = Duration::from_millis(if args.thorough() { 60 } else { 30 });
     let out = Mutex::new(out);
